@@ -917,7 +917,7 @@ func checkC17(c C17Case, st *Stats) error {
 	return err
 }
 
-var propC17 = Register(Prop[C17Case]{ID: "C17", Name: "C17", Check: checkC17})
+var propC17 = Register(Prop[C17Case]{ID: "C17", Name: "C17", Pending: true, Check: checkC17})
 
 func c17Cells() []C17Case {
 	var cells []C17Case
